@@ -411,15 +411,13 @@ Definition v_pop (x : vv) : res (option vv) :=
     else Ok (vec_sub v bgn (en - 1))
   end.
 
-(* [strict] = false is the code as it is: subVector.SubVector forwards
-   (begin+i, begin+j) to the underlying vector, whose test is against the
-   underlying vector's length.  [strict] = true is the repaired code (bounds
-   tested against the slice first). *)
-Definition v_sub (strict : bool) (x : vv) (i j : Z) : option vv :=
+(* subVector.SubVector: the bounds are tested against the slice itself, then
+   the request is forwarded to the underlying vector *)
+Definition v_sub (x : vv) (i j : Z) : option vv :=
   match x with
   | Vec v => vec_sub v i j
   | Sub v bgn en =>
-    if strict && ((i <? 0) || (i >? j) || (j >? en - bgn)) then None
+    if (i <? 0) || (i >? j) || (j >? en - bgn) then None
     else vec_sub v (bgn + i) (bgn + j)
   end.
 
@@ -465,13 +463,13 @@ Definition vals_index (x : vv) (i : Z) : res (option any) :=
   end.
 
 (* vals.Index(l, "i..j") *)
-Definition vals_slice (strict : bool) (x : vv) (i j : Z) : option vv :=
+Definition vals_slice (x : vv) (i j : Z) : option vv :=
   match adjustAndCheckIndex i (v_len x) true with
   | None => None
   | Some i' =>
     match adjustAndCheckIndex j (v_len x) true with
     | None => None
-    | Some j' => if j' <? i' then None else v_sub strict x i' j'
+    | Some j' => if j' <? i' then None else v_sub x i' j'
     end
   end.
 
@@ -491,18 +489,18 @@ Definition of_eres (r : res (option any)) : outcome vv :=
 Definition of_opt {V} (r : option V) : outcome V :=
   match r with Some y => XVec y | None => XRejected end.
 
-Definition m_apply (strict : bool) (x : vv) (o : op) : outcome vv :=
+Definition m_apply (x : vv) (o : op) : outcome vv :=
   match o with
   | OConj _ a => of_vres (v_conj x a)
   | OConjRange _ x0 k => of_vres (conj_range (Z.to_nat k) x x0)
   | OPop _ => of_vres (v_pop x)
   | OPopN _ k => of_vres (pop_n (Z.to_nat k) x)
   | OAssoc _ i a => of_vres (v_assoc x i a)
-  | OSub _ i j => of_opt (v_sub strict x i j)
+  | OSub _ i j => of_opt (v_sub x i j)
   | OIndex _ i => of_eres (v_index x i)
   | OIter _ => match v_iter x with Ok l => XRead l | Panic => XPanic | OutOfFuel => XFuel end
   | OVIndex _ i => of_eres (vals_index x i)
-  | OVSlice _ i j => of_opt (vals_slice strict x i j)
+  | OVSlice _ i j => of_opt (vals_slice x i j)
   | OVAssoc _ i a => of_vres (vals_assoc x i a)
   end.
 
@@ -676,9 +674,9 @@ Record case := mkCase { c_steps : list (op * robs) }.
 Definition check_C06 (steps : list (op * robs)) : bool :=
   jrun s_apply zlen (fun l => Ok l) [Some (mk_slot zlen (fun l => Ok l) [])] steps.
 
-(* the model of the code as it is (strict = false), started from vector.Empty *)
+(* the model of the code, started from vector.Empty *)
 Definition model_agrees (steps : list (op * robs)) : bool :=
-  jrun (m_apply cb false) v_len (v_iter cb) [Some (mk_slot v_len (v_iter cb) (Vec empty))] steps.
+  jrun (m_apply cb) v_len (v_iter cb) [Some (mk_slot v_len (v_iter cb) (Vec empty))] steps.
 
 Definition judge1 (c : case) : N :=
   code (check_C06 (c_steps c)) (model_agrees (c_steps c)).
